@@ -216,6 +216,8 @@ def run(ctx):
     for c in [c for m in cls.body if isinstance(m, ast.FunctionDef) for c in calls_in(m, "emit_jump")]:
         ctx.ob("C24.R5", F + ":IrToPythonCompiler", "emit_jump is given the block that ends in this jump", len(c.args) == 2 and norm(c.args[0]) in ("ins.block", "block"), construct="jump-src:" + norm(c.args[-1]), node=c)
 
+    _runtime_stack(ctx, helpers)
+
 
 def _anc(n):
     out = []
@@ -224,3 +226,58 @@ def _anc(n):
         out.append(n)
         n = getattr(n, "_parent", None)
     return out
+
+
+def negated_name_slices(tree):
+    """slices whose bound is `-name` without a guard that name is non-zero: x[-n:] is the WHOLE sequence for n == 0"""
+    from ..sym import conjuncts
+    out = []
+    for fn in [f for f in ast.walk(tree) if isinstance(f, ast.FunctionDef)]:
+        for n in ast.walk(fn):
+            if not (isinstance(n, ast.Subscript) and isinstance(n.slice, ast.Slice)):
+                continue
+            for bound in (n.slice.lower, n.slice.upper):
+                if isinstance(bound, ast.UnaryOp) and isinstance(bound.op, ast.USub) and isinstance(bound.operand, ast.Name):
+                    v = bound.operand.id
+                    guards = [(" ".join(norm(c).split()), pol) for c, pol in conjuncts(n, fn, {})]
+                    if not any((c == v and pol is True) or (c in ("%s > 0" % v, "%s != 0" % v, "%s >= 1" % v, "0 < %s" % v) and pol is True) or (c in ("%s == 0" % v, "not %s" % v) and pol is False) for c, pol in guards):
+                        out.append((n, v))
+    return out
+
+
+def _runtime_stack(ctx, helpers):
+    """R6: the emitted runtime keeps all allocas of all active calls in one bytearray; alloca(n) hands out the old
+    length and grows by n, free(n) - emitted before every return with the function's total - removes exactly n bytes."""
+    ctx.rule("C24.R6", "runtime stack: alloca(n) returns (old length, n) and extends the stack by n zero bytes; free(n) removes exactly the last n bytes for every n >= 0 - n == 0 (a function without allocas) removes nothing", floor=4)
+    site = F + ":IrToPythonCompiler.generate_builtins"
+    ctl = ast.parse("class R:\n    def free(self, amount):\n        del self.stack[-amount:]\n    def ok(self, amount):\n        if amount:\n            del self.stack[-amount:]\n")
+    for nd in ast.walk(ctl):
+        for ch in ast.iter_child_nodes(nd):
+            ch._parent = nd
+    ctx.need(len(negated_name_slices(ctl)) == 1, "C24.R6 positive control lost")
+    al, fr = helpers.get("alloca"), helpers.get("free")
+    ctx.need(al is not None and fr is not None, "emitted helpers alloca / free not found")
+    a = al.args.args[1].arg
+    txt = [" ".join(norm(s_).split()) for s_ in al.body]
+    ok = txt == ["ptr = len(self.stack)", "self.stack.extend(bytes(%s))" % a, "return (ptr, %s)" % a]
+    ctx.ob("C24.R6", site, "alloca: pointer = current length, then the stack grows by `amount` zero bytes, the (pointer, size) pair is returned", ok, construct="alloca", detail="; ".join(txt))
+    f = fr.args.args[1].arg
+    body = [" ".join(norm(s_).split()) for s_ in fr.body]
+    loop_form = len(fr.body) == 1 and isinstance(fr.body[0], ast.For) and " ".join(norm(fr.body[0].iter).split()) == "range(%s)" % f and [" ".join(norm(x).split()) for x in fr.body[0].body] == ["self.stack.pop()"]
+    slice_len = body == ["del self.stack[len(self.stack) - %s:]" % f]
+    guarded = len(fr.body) == 1 and isinstance(fr.body[0], ast.If) and " ".join(norm(fr.body[0].test).split()) in (f, "%s > 0" % f, "%s != 0" % f) and not fr.body[0].orelse and \
+        [" ".join(norm(x).split()) for x in fr.body[0].body] == ["del self.stack[-%s:]" % f]
+    ctx.ob("C24.R6", site, "free(amount) removes exactly `amount` bytes from the end, nothing for amount == 0 (pop loop, length-based slice, or a guarded negative slice)", loop_form or slice_len or guarded, construct="free-exact", detail="; ".join(body)[:120])
+    tree = helpers["free"]
+    root = tree
+    while getattr(root, "_parent", None) is not None:
+        root = root._parent
+    bad = negated_name_slices(root)
+    ctx.ob("C24.R6", site, "no emitted helper slices with an unguarded negated variable (`x[-n:]` is everything when n is 0)", not bad, construct="no-negative-zero-slice", node=None, detail="; ".join("%s in line %d" % (norm(n)[:40], n.lineno) for n, _ in bad[:3]))
+    rs = ctx.fn(F, "IrToPythonCompiler.reset_stack")
+    em = [s_ for s_ in rs.body if isinstance(s_, ast.Expr) and isinstance(s_.value, ast.Call) and norm(s_.value.func) == "self.emit"]
+    ok = len(em) == 1 and "rt.free(" in _fstr_text(em[0]) and "self.stack_size" in norm(em[0])
+    ctx.ob("C24.R6", F + ":IrToPythonCompiler.reset_stack", "every return frees the function's accumulated alloca total (possibly 0)", ok, construct="free-on-return")
+    gi = ctx.fn(F, "IrToPythonCompiler.generate_instruction")
+    acc = [n for n in ast.walk(gi) if isinstance(n, ast.AugAssign) and norm(n.target) == "self.stack_size" and isinstance(n.op, ast.Add) and norm(n.value) == "ins.amount"]
+    ctx.ob("C24.R6", F + ":IrToPythonCompiler.generate_instruction", "each Alloc adds its size to that total", len(acc) == 1, construct="alloc-accumulates")
